@@ -2,6 +2,7 @@ import PikaVerif.Props.C08
 import PikaVerif.Lemmas.SemProg
 import PikaVerif.Lemmas.SemCover
 import PikaVerif.Lemmas.SemSolo
+import PikaVerif.Lemmas.SSemProg
 /-!
 # C08t — termination / bounded progress of the semaphore operations (follow-up of C08)
 
@@ -213,5 +214,170 @@ theorem C08t_release_wakes (s : St) (hr : Reachable s) (r k : Nat) (hrn : r < s.
   · rw [acqAll_length, hlen]
   · rw [b7, a7, hlen]
   · rw [b4, a4, hlen]
+
+/-! ## Non-vacuity -/
+
+/-- three acquirers, one `release(3)`, one `try_acquire` -/
+def prog3 : Nat → List Op :=
+  fun t => if t < 3 then [.acq] else if t = 3 then [.rel 3] else if t = 4 then [.tryq] else []
+
+/-- the three acquirers block, the `try_acquire` fails in between, one `release(3)` pops all three,
+    they take their permits; every thread ends its program -/
+def run3 : List Ev :=
+  [.inv 0 .acq, .slAcq 0, .cvEnq 0 1 false, .slRel 0, .suspend 0,
+   .inv 1 .acq, .slAcq 1, .cvEnq 1 2 false, .slRel 1, .suspend 1,
+   .inv 2 .acq, .slAcq 2, .cvEnq 2 3 false, .slRel 2, .suspend 2,
+   .inv 4 .tryq, .slAcq 4, .slRel 4, .ret 4 false, .done 4,
+   .inv 3 (.rel 3), .slAcq 3, .add 3 3 3,
+   .popResume 3 2 0 false, .slRel 3, .slAcq 3,
+   .popResume 3 1 1 false, .slRel 3, .slAcq 3,
+   .popResume 3 0 2 false, .slRel 3, .ret 3 false, .done 3,
+   .woke 0, .slAcq 0, .cvWoke 0 false false, .take 0 2, .slRel 0, .ret 0 true, .done 0,
+   .woke 1, .slAcq 1, .cvWoke 1 false false, .take 1 1, .slRel 1, .ret 1 true, .done 1,
+   .woke 2, .slAcq 2, .cvWoke 2 false false, .take 2 0, .slRel 2, .ret 2 true, .done 2]
+
+/-- the run is accepted, is maximal, ends with every thread finished, and respects the bound -/
+example : ∃ p, runLog pstep (pinit 5 0 prog3) run3 = some p ∧ PStuck p ∧ (∀ t, t < 5 → p.s.pc t = .fin) ∧
+    run3.length ≤ bound 5 prog3 := by
+  refine ⟨_, rfl, ?_, by decide, by decide⟩
+  apply pstuck_of_rest
+  · rfl
+  · intro t ht
+    have ht' : t < 5 := ht
+    left
+    revert t
+    decide
+
+/-- the solo part of that run is literally `relSolo` followed by `acqAll` (so the hypotheses of
+    `C08t_release_wakes` are satisfiable with `k = 3` and three parked acquirers) -/
+example : relSolo 3 3 0 [0, 1, 2] ++ [.done 3] ++
+    (acqSolo 0 3 ++ [.done 0] ++ (acqSolo 1 2 ++ [.done 1] ++ (acqSolo 2 1 ++ [.done 2]))) = run3.drop 21 := by
+  rfl
+
+/-- the hypotheses of `C08t_release_wakes` hold in the state of that run at which thread 3 has
+    invoked `release(3)`: reachable, lock free, three acquirers parked on the queue -/
+example : ∃ s, runLog step (init 5 0) (run3.take 21) = some s ∧ s.lock = none ∧
+    s.pc 3 = .want (.rel 3) ∧ s.queue = [0, 1, 2] ∧ ∀ g, g ∈ s.queue → s.pc g = .susp false := by
+  refine ⟨_, rfl, rfl, rfl, rfl, ?_⟩
+  intro g hg
+  have : g = 0 ∨ g = 1 ∨ g = 2 := by simpa [init] using hg
+  rcases this with h | h | h <;> subst h <;> rfl
+
+/-- the coverage hypothesis of `C08t_covered_all_return` holds for three acquirers and one
+    `release(3)` (and fails, as it must, when the `try_acquire` competes: `prog3`) -/
+example : (progCons 4 (fun t => if t < 3 then [.acq] else [.rel 3]) : Int) +
+    progHazard 4 (fun t => if t < 3 then [.acq] else [.rel 3]) ≤
+    0 + progRel 4 (fun t => if t < 3 then [.acq] else [.rel 3]) := by decide
+example : ¬ ((progCons 5 prog3 : Int) + progHazard 5 prog3 ≤ 0 + progRel 5 prog3) := by decide
+
+/-- why `progHazard` is needed: the one-thread program `acquire; release(1)` on an empty semaphore
+    has "initial + releases ≥ acquires" and yet its only maximal run ends blocked — the release
+    sits behind the acquire that needs it -/
+def progBad : Nat → List Op := fun _ => [.acq, .rel 1]
+
+example : ∃ p, runLog pstep (pinit 1 0 progBad)
+      [.inv 0 .acq, .slAcq 0, .cvEnq 0 1 false, .slRel 0, .suspend 0] = some p ∧ PStuck p ∧
+    Blocked p.s 0 ∧ (progCons 1 progBad : Int) ≤ 0 + progRel 1 progBad ∧ progHazard 1 progBad = 1 := by
+  refine ⟨_, rfl, ?_, ?_, by decide, by decide⟩
+  · apply pstuck_of_rest
+    · rfl
+    · intro t ht
+      have : t = 0 := by simp [pinit, init] at ht; omega
+      subst this
+      right; simp [upd, init, pinit]
+  · simp [Blocked, upd, init, pinit]
+
+end PikaVerif.C08t
+
+namespace PikaVerif.C08t
+open PikaVerif PikaVerif.C08
+
+/-! ## Sliding semaphore (model `PikaVerif.SSem`)
+
+`signal(l)` notifies as many waiters as are queued at that moment; the queue never holds more than
+`n` entries (`SSem.QLen`, `SSem.qlen_le`), so the potential of a `signal` is `15 n + 9` where `n` is
+the number of threads: `SSem.rank` takes `n` as a parameter. -/
+
+/-- **The measure decreases (sliding).**  In every reachable state, every accepted event that is
+    not the invocation of a new operation strictly decreases `SSem.mu`; an invocation of `o` adds
+    exactly the potential of `o` (`rank n (want o) - 1`). -/
+theorem C08t_sliding_measure_decreases (n : Nat) (d l : Int) (log : List SSem.Ev) (s s' : SSem.St)
+    (e : SSem.Ev) (h : runLog SSem.step (SSem.init n d l) log = some s) (he : SSem.step s e = some s') :
+    (∀ t o, e = .inv t o → SSem.mu s' + 1 = SSem.mu s + SSem.rank s.n (.want o)) ∧
+    ((∀ t o, e ≠ .inv t o) → SSem.mu s' < SSem.mu s) := by
+  have hg : SSem.Good s := SSem.runLog_good h
+  refine ⟨?_, fun hne => SSem.mu_step s s' e hg hne he⟩
+  intro t o heq; subst heq; exact SSem.mu_inv s s' t o he
+
+/-- **Bounded runs (sliding).**  Any accepted log of a finite program (`n` threads, `prog t` the
+    operations of thread `t`) has at most `SSem.bound n prog` events (1 per thread + 11 per
+    `wait` / `try_wait` + `15 n + 9` per `signal`) — whatever the interleaving. -/
+theorem C08t_sliding_bounded (n : Nat) (d l : Int) (prog : Nat → List SSem.Op) (log : List SSem.Ev)
+    (p : SSem.PSt) (h : runLog SSem.pstep (SSem.pinit n d l prog) log = some p) :
+    log.length ≤ SSem.bound n prog := by
+  have := (SSem.runLog_phi log _ p (SSem.good_init n d l) h).1
+  rw [SSem.phi_pinit] at this
+  omega
+
+/-- An accepted log of a program is an accepted log of the model. -/
+theorem C08t_sliding_program_refines (n : Nat) (d l : Int) (prog : Nat → List SSem.Op)
+    (log : List SSem.Ev) (p : SSem.PSt) (h : runLog SSem.pstep (SSem.pinit n d l prog) log = some p) :
+    runLog SSem.step (SSem.init n d l) log = some p.s :=
+  SSem.runLog_pstep_step log _ p h
+
+/-- **Maximal runs exist and are finite (sliding).** -/
+theorem C08t_sliding_maximal_exists (n : Nat) (d l : Int) (prog : Nat → List SSem.Op)
+    (log : List SSem.Ev) (p : SSem.PSt) (h : runLog SSem.pstep (SSem.pinit n d l prog) log = some p) :
+    ∃ ext p', runLog SSem.pstep (SSem.pinit n d l prog) (log ++ ext) = some p' ∧ SSem.PStuck p' ∧
+      (log ++ ext).length ≤ SSem.bound n prog := by
+  have hr := (SSem.runLog_phi log _ p (SSem.good_init n d l) h).2
+  obtain ⟨ext, p', hrun, hst⟩ := SSem.exists_maximal_from (SSem.phi p) p hr (Nat.le_refl _)
+  have hfull : runLog SSem.pstep (SSem.pinit n d l prog) (log ++ ext) = some p' := by
+    rw [runLog_append, h]; simpa using hrun
+  exact ⟨ext, p', hfull, hst, C08t_sliding_bounded n d l prog _ p' hfull⟩
+
+/-- **Final states (sliding).**  In the final state of a maximal run of a program every thread has
+    finished its whole program, except threads parked in `wait(u)` without a wake-up token — and
+    for such a thread the lower limit is still out of reach (`lower < u - max_difference`). -/
+theorem C08t_sliding_final_state (n : Nat) (d l : Int) (prog : Nat → List SSem.Op)
+    (log : List SSem.Ev) (p : SSem.PSt) (h : runLog SSem.pstep (SSem.pinit n d l prog) log = some p)
+    (hs : SSem.PStuck p) :
+    ∀ t, t < n → (p.s.pc t = .fin ∧ p.prog t = []) ∨
+      (∃ u, SBlocked p.s t u ∧ p.s.lower < u - p.s.maxDiff) := by
+  have hlog := SSem.runLog_pstep_step log _ p h
+  have hreach : SReachable p.s := ⟨n, d, l, log, hlog⟩
+  have hstuck : SStuck p.s := by
+    intro e h1 h2
+    have := hs e
+    cases e <;> simp only [SSem.pstep] at this <;>
+      first
+      | (exact absurd rfl (h1 _ _))
+      | (exact absurd rfl (h2 _))
+      | (simpa using this)
+  have hfin : SSem.FinOk p :=
+    SSem.runLog_finOk log _ p (by intro t ht; simp [SSem.pinit, SSem.init] at ht) h
+  have hn : p.s.n = n := SSem.runLog_n hlog
+  intro t ht
+  rcases C08_sliding_stuck_only_when_blocked p.s hreach hstuck t (by omega) with hi | hf | ⟨u, hb⟩
+  · exfalso
+    cases hp : p.prog t with
+    | nil =>
+      have := hs (.done t)
+      simp [SSem.pstep, hp, SSem.step, hi, hn, ht] at this
+    | cons o rest =>
+      have := hs (.inv t o)
+      simp [SSem.pstep, hp, SSem.step, hi, hn, ht] at this
+  · exact Or.inl ⟨hf, hfin t hf⟩
+  · exact Or.inr ⟨u, hb, C08_sliding_blocked_released p.s hreach hstuck t u hb⟩
+
+/-- non-vacuity: a complete (maximal) run of the program "thread 0: `wait 5`, thread 1: `signal 4`"
+    (`max_difference = 1`, `lower_limit = 0`) is accepted by `SSem.pstep`, including the final
+    `done` events -/
+example : (runLog SSem.pstep
+    (SSem.pinit 2 1 0 (fun t => if t = 0 then [.wait 5] else if t = 1 then [.signal 4] else []))
+    [.inv 0 (.wait 5), .slAcq 0, .cvEnq 0 1, .slRel 0, .suspend 0,
+     .inv 1 (.signal 4), .slAcq 1, .sig 1 4 1, .popResume 1 0 0, .slRel 1, .ret 1 false,
+     .woke 0, .slAcq 0, .cvWoke 0 false, .pass 0 5 4, .slRel 0, .ret 0 true,
+     .done 0, .done 1]).isSome = true := by decide
 
 end PikaVerif.C08t
